@@ -39,7 +39,8 @@ CONF = {
     "C14": dict(level="exploration", workers=16, quick=dict(cases=1200, size=60), thorough=dict(cases=8000, size=100)),
     "C13": dict(level="exploration", workers=16, quick=dict(cases=2000, size=60), thorough=dict(cases=8000, size=100)),
     "C15": dict(level="exploration", workers=16, quick=dict(cases=3000, size=80), thorough=dict(cases=15000, size=100)),
-    "C16": dict(level="exploration", workers=16, quick=dict(cases=900, size=50), thorough=dict(cases=10000, size=100)),
+    "C16H": dict(level="exploration", workers=16, quick=dict(cases=600, size=50), thorough=dict(cases=6000, size=100)),
+    "C16": dict(also=dict(quick=[("C16H", 600)], thorough=[("C16H", 6000)]), level="exploration", workers=16, quick=dict(cases=900, size=50), thorough=dict(cases=10000, size=100)),
     "C17": dict(level="exploration", workers=16, quick=dict(cases=8000, size=100), thorough=dict(cases=150000, size=150),
                 fuzz=[]),
     "C18Q": dict(level="exploration", workers=16, quick=dict(cases=1500, size=60), thorough=dict(cases=10000, size=100)),
@@ -163,6 +164,12 @@ def main():
     for other, ocases in conf.get("also", {}).get(tier, []):
         build(other, ["san"])
         obin = f"{B}/bin/{other}"
+        for f in sorted(glob.glob(f"{V}/regress/{other}/*.case")):
+            nreg += 1
+            r = subprocess.run([obin, "--replay", f], env=env, stdout=subprocess.PIPE, stderr=subprocess.PIPE, text=True)
+            if r.returncode == 1:
+                msg = " ".join(ln for ln in r.stdout.splitlines() if ln.startswith("REPLAY-FAIL"))
+                violations.append(dict(sig="regress", replay=f, msg=msg[:400]))
         odir = f"{B}/run/{pid}-{other}"
         shutil.rmtree(odir, ignore_errors=True)
         os.makedirs(odir, exist_ok=True)
